@@ -263,7 +263,10 @@ def facts_of(R):
     F['sync_bg_registers_before_push'] = bool(re.search(r'wake_blocked\.push\(.*?core\.queue\.push_back\(unsafe_job\)', sbg, flags=re.S))
     F['sync_bg_resched_if_idle'] = bool(re.search(r'core\.state\s*==\s*QueueState::Idle\s*\}\s*;\s*if\s+need_reschedule\s*\{\s*self\.reschedule_queue\(queue\)\s*;\s*\}', sbg))
     # sticky notification (repair of F2): a 'kicked' flag consulted before waiting
-    F['sticky_notify'] = bool(re.search(r'kicked', sbg)) and bool(re.search(r'kicked', find_fn(core, 'reschedule_queue', 'fact:resched')))
+    rqf0 = find_fn(core, 'reschedule_queue', 'fact:resched')
+    F['sticky_notify'] = (bool(re.search(r'if\s*!rescheduled\.swap\(false,[^)]*\)\s*\{\s*ready\s*=\s*wakeup\.wait\(ready\)[^;]*;\s*continue\s*;\s*\}', sbg))
+        and bool(re.search(r'AtomicBool::new\(true\)', sbg))
+        and bool(re.search(r'rescheduled\.store\(true,[^)]*\)\s*;\s*if\s+let\s+Some\(ready\)\s*=\s*ready\.upgrade\(\)\s*\{\s*mem::drop\(ready\.lock\(\)\)\s*;\s*\}\s*cond_var\.notify_one\(\)', rqf0)))
     F['steal_guarded'] = bool(re.search(r'if\s+self\.core\.claim_pending_queue\(queue\)\s*\{\s*let\s+_active\s*=\s*ActiveQueue\s*\{\s*queue:\s*&\*queue\s*\}\s*;', sbg))
     # reschedule after every `state = Idle` of a foreground runner
     idle_then_resched = r'\.state\s*=\s*QueueState::Idle\s*;\s*self\.(scheduler\.core\.)?reschedule_queue\('
